@@ -5,7 +5,6 @@ package interp
 import (
 	"fmt"
 	"go/types"
-	"math/big"
 	"regexp"
 	"strings"
 )
@@ -411,26 +410,4 @@ func (ex *exec) recordCrash(kind, reason string) {
 func (ex *exec) assumeQuiet(c *Term) {
 	ex.pc = append(ex.pc, c)
 	ex.solver.Assert(c)
-}
-
-// evalValuesModel renders observed values under the given input model.
-func (ex *exec) evalValuesModel(vals []value, model map[string]string) []string {
-	var bind []*Term
-	for _, in := range ex.inputs {
-		s, ok := model[in.Name]
-		if !ok {
-			continue
-		}
-		switch in.T.sort {
-		case SBool:
-			bind = append(bind, tEq(in.T, mkBool(s == "true")))
-		case SInt:
-			if n, ok := new(big.Int).SetString(s, 10); ok {
-				bind = append(bind, tEq(in.T, mkInt(n)))
-			}
-		case SStr:
-			bind = append(bind, tEq(in.T, mkStr(s)))
-		}
-	}
-	return ex.evalValues(vals, bind...)
 }
